@@ -29,8 +29,8 @@ ASSUMPTIONS = ["termination is decided as 'within 60 s on bounded inputs'; a 5 s
 PRACTICE = os.path.join(core.REPO, "tests", "practice")
 VOCAB = (["mov", "clr", "br", "sob", "jsr", "rts", "emt", "mul", "ldf", "stf", "push", ".word", ".byte", ".ascii", ".asciz", ".rad50", ".blkb", ".even", ".align",
           ".repeat", ".include", ".link", ".end", ".once", ".extern", "all", ".error", ".title", "make_bin", "make_wav", "insert_file", ".dword", "r0", "r7", "sp",
-          "pc", "ac0", "ac5", "%", "^C", "^R", "^X", "^B"] + list(", : = ( ) < > { } # @ % ^ ' \" / \\ ; . + - * ! | & _ $".split(" ")) + ["<<", ">>", "==", "::", "\n", "\t", " "])
-ALPHABET = "abxyzRQ_$.,:;=()<>{}#@%^'\"/\\+-*!|&~ \t\n\x00éЖ€\r\f\v\xa0\u2028\x85\x1c"
+          "pc", "ac0", "ac5", "%", "^C", "^R", "^X", "^B", "<0>", "y = y"] + list(", : = ( ) < > { } # @ % ^ ' \" / \\ ; . + - * ! | & _ $".split(" ")) + ["<<", ">>", "==", "::", "\n", "\t", " "])
+ALPHABET = "abxyzRQ_$.,:;=()<>{}#@%^'\"/\\+-*!|&~ \t\n\x00éЖ€\r\f\v\xa0\u2028\x85\x1c\u0d6f\u00b2\u0663"
 
 TOKEN = re.compile(r"[A-Za-z_$.][A-Za-z_0-9$.]*|\d[A-Za-z_0-9$.]*|<<|>>|==|::|\s+|.", re.S)
 
